@@ -327,7 +327,7 @@ class Models:
         return self.zip_symbolic(I, a)
 
     def zip_symbolic(self, I, a):
-        raise OutOfSubset('zip over symbolic sequences')
+        return VZip([I.as_list(x) for x in a])
 
     def m_list(self, I, a, k):
         if not a: return VEmptyList()
@@ -392,6 +392,10 @@ class Models:
         v = a[1]
         size, signed = FMT[ch]
         if ch == 'd':
+            if isinstance(v, VOpaque) and v.term is not None:
+                t = ufun('pack_d', BoolSort, IntSort, StringSort)(z3.BoolVal(le), v.term)     # IEEE-754 image: uninterpreted
+                I.ctx.assume(z3.Length(t) == 8)
+                return VBytes(t)
             if isinstance(v, VOpaque):
                 return VBytes(I.ctx.fresh('packed_d', StringSort))
             raise OutOfSubset('struct.pack d of %r' % (v,))
@@ -977,6 +981,10 @@ class Models:
 
     def call_other(self, I, f, args, kwargs):
         raise OutOfSubset('call of %r' % (f,))
+
+    def const_lookup(self, I, obj, idx):
+        """hook: subscript of a live constant table with a symbolic key (None = default case split)"""
+        return None
 
     def contract_exception(self, I, cls):
         """the exception object a callee raises according to its contract (fields unknown unless overridden)"""
